@@ -415,6 +415,102 @@ pub fn run_c16() -> Report {
     for p in parts {
         rep.merge(p);
     }
+    failing_runs(&mut rep, &root);
     let _ = std::fs::remove_dir_all(&root);
     rep
+}
+
+/// "For every processed output ... prints one line": a run that cannot read (or, under --verify, rejects) a LATER block has
+/// processed the blocks before it; their lines are due whatever happens afterwards and however the process ends. Chain of 6
+/// blocks, one per blk file, two printable payloads per block; for every height f in 1..=5 the block f is made unusable in each
+/// of 4 ways (file removed, file cut inside the block, index offset past the end, a txid-covered byte changed under --verify);
+/// the run must fail, and stdout must carry exactly the model's lines of heights start..f-1, in order.
+fn failing_runs(rep: &mut Report, root: &std::path::Path) {
+    let mut cases = Vec::new();
+    for cn in ["bitcoin", "litecoin", "dogecoin"] {
+        for f in 1..=5u64 {
+            for kind in 0..4usize {
+                for start in [0u64, 1] {
+                    if start < f {
+                        cases.push((cn, f, kind, start));
+                    }
+                }
+            }
+        }
+    }
+    let parts = par_fold(
+        &cases,
+        || Report::new("C16", "e1"),
+        |w, i, (cn, f, kind, start), acc| {
+            let c = coin(cn);
+            let wk = Worker::new(root, 500 + w);
+            let mut cb = ChainBuilder::with_genesis(c);
+            while cb.blocks.len() < 6 {
+                let h = cb.next_height();
+                cb.push_raw(vec![
+                    coinbase(h, 4, vec![pay(2, 50 * COIN_VALUE), TxOut { value: 0, script: script::op_return(format!("coinbase of {}", h).as_bytes()) }]),
+                    Tx { version: 1, segwit: false, inputs: vec![TxIn::spend([0xe0; 32], h as u32)], outputs: vec![pay(3, 7), TxOut { value: 0, script: script::op_return(format!("payload {} \u{e9}\u{3b2}", h).as_bytes()) }], locktime: 0, wide: 0 },
+                ]);
+            }
+            let mut world = World::new(c);
+            let mut recs = Vec::new();
+            for (h, b) in cb.blocks.iter().enumerate() {
+                recs.push(world.add_block(h as u64, h as u64, b));
+            }
+            let label = match kind {
+                0 => {
+                    world.files.remove(f);
+                    "blk-file-removed"
+                }
+                1 => {
+                    let fl = world.files.get_mut(f).unwrap();
+                    let mut d = fl.dense();
+                    d.truncate(8 + 80 + 20);
+                    fl.len = d.len() as u64;
+                    fl.chunks = vec![(0, d)];
+                    "blk-file-cut-inside-the-block"
+                }
+                2 => {
+                    let mut r = recs[*f as usize].clone();
+                    r.data_pos = world.files[f].len + 64;
+                    world.put_rec(&r);
+                    "offset-past-the-end"
+                }
+                _ => {
+                    // last byte of the block = last byte of the last transaction's lock time: covered by its txid
+                    let fl = world.files.get_mut(f).unwrap();
+                    let mut d = fl.dense();
+                    let n = d.len();
+                    d[n - 1] ^= 0x01;
+                    fl.chunks = vec![(0, d)];
+                    "txid-covered-byte-changed-under-verify"
+                }
+            };
+            let mut spec = RunSpec::new(cn, "opreturn").range(if *start > 0 { Some(*start) } else { None }, None).verify(*kind == 3);
+            spec.verbosity = [0u8, 1, 3][i % 3];
+            spec.threads = [1u32, 2, 16][(i / 3) % 3];
+            let r = match wk.world_run(&world, &spec) {
+                Ok(r) => r,
+                Err(m) => return acc.machinery(m),
+            };
+            acc.states += 1;
+            acc.transitions += 1;
+            acc.count(&format!("failing-run:{}", label), 1);
+            acc.nontrivial.insert(h8(format!("fail{}{}{}{}", cn, f, kind, start).as_bytes()));
+            let desc = replay_case(&world, &spec, json!({"must": format!("fail at height {}; stdout carries exactly the lines of heights {}..{}", f, start, f - 1)}), &r, &wk.dir);
+            if r.code == Some(0) {
+                // whether such a run may succeed is C09's / C10's business; nothing to judge here
+                acc.count("failing-run:not-judged-run-succeeded", 1);
+                return;
+            }
+            let range = in_range(&cb.mblocks(), *start, f - 1);
+            acc.count("expected-lines", refmodel::model::opreturn_lines(c, &range).iter().filter(|l| l.data.is_some()).count() as u64);
+            if let Some((sig, detail)) = check_opreturn_lines(&r, c, &range).into_iter().next() {
+                acc.disagree(&format!("lines-of-processed-blocks-before-a-failure:{}", sig), format!("{} {} at height {} (start {}): {}", cn, label, f, start, detail.chars().take(500).collect::<String>()), desc);
+            }
+        },
+    );
+    for p in parts {
+        rep.merge(p);
+    }
 }
